@@ -58,7 +58,9 @@ func runBatch(id string, ops []string, seed int64) {
 			dbg = append(dbg, fmt.Sprintf("%7.3fms %s", float64(time.Since(t0).Microseconds())/1000, s))
 			dbgMu.Unlock()
 		}
-		app.VerifTraceFn = func(ev string, proc string, inst int64, kv []any) { note(fmt.Sprintf("%s %s#%d %v", ev, proc, inst, kv)) }
+		app.VerifTraceFn = func(ev string, proc string, inst int64, kv []any) {
+			note(fmt.Sprintf("%s %s#%d %v", ev, proc, inst, kv))
+		}
 		app.VerifGateFn = func(proc string, inst int64, point string) { note(fmt.Sprintf("gate %s %s#%d", point, proc, inst)) }
 	}
 	app.VerifBackoffFn = func(proc string, inst int64, d time.Duration) (time.Duration, bool) { return d / 200, true }
